@@ -22,6 +22,8 @@ chains                                      ->  > chains ...   (the model's chai
 newctx                                      fresh translation context (cold read cache); so do mem/ovr/bad/null/clr/newsys
 reent off | <as> <pfn:addr,...>             re-entrant get-page callback: before it delivers page <pfn> (of any address space)
                                             it reads the 64-bit object at <as>:<addr> through the same context
+reentsys <0|1>                              the callback's own read may use the translation system (the object's address space need
+                                            not be directly readable); such reads are outside the cache model (`rd ?`)
 rd <as> <addr>                              ->  > rd <status> [<value>] gp=<callbacks started> nest=<deepest nesting> mru=<slot order>
                                                   slots=<as:addr:size:ptr;...>     one 64-bit read through the context
                                                   (model: Kdf.Model.RCache = get_cache_buf of ctx.c)
@@ -104,6 +106,7 @@ structure St where
   cache : Option Kdf.Model.RCache.RCache := some Kdf.Model.RCache.init    -- `none`: not tracked (after op/conv)
   reentAs : Nat := 0
   reent : List (Nat × Nat) := []                                           -- (pfn, address read first)
+  reentSys : Bool := false
 
 /-- the harness's get-page callback as the cache model sees it -/
 def cbOf (s : St) : Kdf.Model.RCache.Cb :=
@@ -180,7 +183,8 @@ partial def loop (h : IO.FS.Stream) (s : St) : IO Unit := do
   | ["null", as, pg] =>
     loop h { s with cache := some Kdf.Model.RCache.init,
                     mem := { s.mem with bad := (as.toNat!, pg.toNat!, .nodata, true) :: s.mem.bad } }
-  | ["clr"] => loop h { s with cache := some Kdf.Model.RCache.init, reent := [], mem := { s.mem with ovr := [], bad := [] } }
+  | ["reentsys", b] => loop h { s with reentSys := b == "1" }
+  | ["clr"] => loop h { s with cache := some Kdf.Model.RCache.init, reent := [], reentSys := false, mem := { s.mem with ovr := [], bad := [] } }
   | ["newsys"] =>
     loop h { s with cache := some Kdf.Model.RCache.init, sys := ⟨List.replicate 5 none, List.replicate 16 .nometh⟩, nosys := false }
   | ["newctx"] => loop h { s with cache := some Kdf.Model.RCache.init }
@@ -191,6 +195,10 @@ partial def loop (h : IO.FS.Stream) (s : St) : IO Unit := do
     loop h { s with reentAs := as.toNat!, reent := es }
   | ["rd", as, addr] =>
     let a : FullAddr := ⟨addr.toNat!, asOf as⟩
+    if s.reentSys && !s.reent.isEmpty && !Kdf.Model.RCache.capsHas s.rcaps s.reentAs then
+      IO.println "> rd ?"                    -- the callback's read goes through addrxlat_op: outside the cache model
+      loop h { s with cache := none }
+    else
     match s.cache with
     | none => IO.println "> rd UNSYNC"; loop h s
     | some c =>
